@@ -249,6 +249,11 @@ class StmtMixin:
             h = st.heap[o.rid]
             f = dict(h.fields)
             p = dict(h.present)
+            decl = self.records.get(h.cls, {}).get(attr)
+            if decl is None and self.cur is not None:
+                decl = self.cur[0].self_fields.get(attr)
+            if decl is not None:
+                v = self.coerce(v, parse_type(decl), st)        # e.g. an empty list literal takes the field's element type
             f[attr] = v
             if attr in p:
                 p[attr] = z3.BoolVal(True)
